@@ -239,7 +239,7 @@ func main() {
 	ev.GuardFor("C16")
 	r := ev.Start("C16")
 	defer r.FinishOnPanic()
-	n := ev.Pick(r, 5, 9)
+	n := ev.Pick(r, 5, 13)
 	rq := seqmc.Explore(r, seqmc.Config{Name: "queue", New: func() seqmc.Sys { return &qh{n: n, q: &lists.Queue[int]{}} }})
 	rs := seqmc.Explore(r, seqmc.Config{Name: "stack", New: func() seqmc.Sys { return &sh{n: n, s: new(lists.Stack[int])} }})
 	// nil *Stack
